@@ -210,7 +210,7 @@ func (p *c15pool) enumOps(dom, maxList int) []c15op {
 			ops = append(ops, c15op{kind: 4, i: i, j: j})
 		}
 	}
-	ops = append(ops, c15op{kind: 5}, c15op{kind: 5, kv: [][2]int{{0, 1}}}, c15op{kind: 5, kv: [][2]int{{1, 2}, {2, 1}}})
+	ops = append(ops, c15op{kind: 5}, c15op{kind: 5, kv: [][2]int{{0, 1}}}, c15op{kind: 5, kv: [][2]int{{1, 2}, {2, 0}}})
 	return ops
 }
 
@@ -248,7 +248,7 @@ func c15randOp(r *rand.Rand, p *c15pool, dom int) c15op {
 			k := r.Intn(dom)
 			if !seen[k] {
 				seen[k] = true
-				kv = append(kv, [2]int{k, 1 + r.Intn(3)})
+				kv = append(kv, [2]int{k, r.Intn(4)}) // zero is a legal stored value
 			}
 		}
 		return c15op{kind: 5, kv: kv}
